@@ -524,6 +524,19 @@ local ctx = runtime.callcontext({kill = {cpu = 2000}}, function()
   return f(5)
 end)
 return ctx.status`},
+	{name: "lib-read-huge-count", maxN: 100, want: wantN, src: `
+local N = ...
+local f = io.tmpfile()
+f:write("abc")
+f:seek("set")
+local ok, s = pcall(f.read, f, 1 << 40)
+f:close()
+if ok and s ~= "abc" then return -1 end
+return N`},
+	{name: "lib-gopanic-inside-coroutine", maxN: 100, want: wantN, src: `
+local N = ...
+local ok = pcall(coroutine.wrap(function() return io.type(runtime.context()) end))
+return N`},
 }
 
 var recNs = []int64{100, 199, 200, 201, 1000, 100000, 1000000}
@@ -542,7 +555,7 @@ func recCases(tier string) []recCase {
 	for i := range all {
 		t := &all[i]
 		for _, n := range recNs {
-			if strings.HasPrefix(t.name, "ctx-") && n != 100 {
+			if (strings.HasPrefix(t.name, "ctx-") || strings.HasPrefix(t.name, "lib-")) && n != 100 {
 				continue
 			}
 			if t.maxN != 0 && n > t.maxN {
